@@ -23,8 +23,10 @@ vars == <<prog, phase, inv, p>>
 Full == { Let("za", 1), LetRef("zb", "za"), Fn("zb", 2), Expr("za"), Expr("zb"), Call("zb"), AnsE, PrintS("za"),
           AssertEq("za", 1), AssertEq("za", 2), LetDiv0("zc"), LetTyErr("zc"), LetAns, UnitDef("za"), ParseErr,
           Use("mb"), Expr("mb_x"), Use("mz"), Use("me"), Use("mf"), Use("mg") }
+Mid  == { Let("za", 1), LetRef("zb", "za"), Expr("za"), Expr("zb"), AnsE, PrintS("za"), AssertEq("za", 2), LetDiv0("zc"),
+          LetTyErr("zc"), UnitDef("za"), ParseErr, Use("mb"), Expr("mb_x"), Use("mz") }
 Core == { Let("za", 1), PrintS("za"), Expr("za"), LetDiv0("zb"), ParseErr, Use("mf"), AssertEq("za", 2), UnitDef("za") }
-Stmts == IF Alphabet = "full" THEN Full ELSE Core
+Stmts == CASE Alphabet = "full" -> Full [] Alphabet = "mid" -> Mid [] OTHER -> Core
 
 Group(ss, g) == IF ss = << >> THEN << >>
                 ELSE IF g = "one" THEN << ss >> ELSE [j \in 1..Len(ss) |-> << ss[j] >>]
